@@ -46,7 +46,7 @@ ASSUMPTIONS = [
     "simulation adds is the schedule quantifier (sample index k <-> patch index k under every completion order)",
     "per-patch pair counts themselves are taken from the sequential run of the real kernels (C01 is not claimed)",
 ]
-PROBES = ["imap_completion_out_of_order", "landy_szalay", "davis_peebles", "nan_bins", "redshiftdata_with_auto", "redshiftdata_with_unk_auto", "exactly_zero_leave_one_out_normalisation", "identities_recycled", "wide_dynamic_range_weights", "resampled_after_set_patch_pair"]
+PROBES = ["imap_completion_out_of_order", "landy_szalay", "davis_peebles", "nan_bins", "redshiftdata_with_auto", "redshiftdata_with_unk_auto", "exactly_zero_leave_one_out_normalisation", "identities_recycled", "wide_dynamic_range_weights", "resampled_after_set_patch_pair", "hundreds_of_patches"]
 REAL_VS_STUB = dict(
     real="yaw measurements, paircounts/corrfunc/corrdata/redshifts algebra, trees, numpy einsum",
     stub="multiprocessing.Pool (sim.fakemp), _num_processes; builtins.id during the repeat/churn stage (sim.identity: identities of released objects recycled in a recorded order)",
@@ -63,6 +63,8 @@ def gen_cases(tier: str, verif_seed: int, runs: int | None = None) -> list[dict]
         if prng.chance(1, 2):
             scene["z_unk"] = scene["z_runk"] = True  # unknown-sample autocorrelation available
         scene["wide"] = True
+        if i % 4 == 1:
+            scene["many"] = prng.choice([182, 200, 255, 300, 400])
         variants = []
         for j in range(nvar):
             variants.append(
@@ -154,6 +156,18 @@ def _workload(case: dict, paths: dict, max_workers, out: dict) -> None:
     out["auto.sample"] = [orc.sampled_state(cf.sample()) for cf in auto]
     out["cross.cov"] = [dict(cov=np.array(cf.sample().covariance), err=np.array(cf.sample().error)) for cf in cross]
     out["hist"] = orc.sampled_state(hist)
+    if "many" in paths:
+        many = yaw.Catalog(paths["many"], **kw)
+        out["hist.many"] = orc.sampled_state(yaw.HistData.from_catalog(many, config, **kw))
+        if max_workers == 1:
+            from yaw.redshifts import _redshift_histogram as _rh2
+
+            rows = []
+            for idx, patch in enumerate(many.values()):
+                r = _rh2(idx, patch, config.binning.binning)
+                rows.append(np.asarray(r[1] if isinstance(r, tuple) else r, dtype="f8"))
+            out["hist.many.per_patch"] = np.array(rows)
+        del many
     if "wide" in paths:
         wide = yaw.Catalog(paths["wide"], **kw)
         out["hist.wide"] = orc.sampled_state(yaw.HistData.from_catalog(wide, config, **kw))
@@ -431,6 +445,23 @@ def evaluate(case: dict, ref: dict, got: dict, cache_ref: dict) -> tuple[dict | 
             return (
                 sig("HistData.from_catalog", "samples_wrong", weights="wide"),
                 f"hist(wide weights).samples[{k_},{b_}] = {np.asarray(g['samples'])[k_, b_]!r}, the sum over the other patches is {loo[k_, b_]!r} (total {total[b_]!r})",
+                probes,
+            )
+    # (c'') hundreds of patches
+    if "hist.many" in got and "hist.many.per_patch" in ref:
+        counts = ref["hist.many.per_patch"]
+        total = counts.sum(axis=0)
+        loo = total[np.newaxis, :] - counts  # dyadic weights: exact
+        g = got["hist.many"]
+        probes["hundreds_of_patches"] = 1
+        if not orc.allclose_nan(g["data"], total, rtol=1e-12) or np.asarray(g["samples"]).shape != loo.shape or not orc.allclose_nan(g["samples"], loo, rtol=1e-12):
+            bad = "shape" if np.asarray(g["samples"]).shape != loo.shape else "-"
+            if bad == "-":
+                rows_ = np.argwhere(~np.isclose(np.asarray(g["samples"], dtype="f8"), loo, rtol=1e-12, atol=0, equal_nan=True).all(axis=1))
+                bad = int(rows_[0][0]) if len(rows_) else "data"
+            return (
+                sig("HistData.from_catalog", "samples_wrong", patches="many"),
+                f"histogram of a catalog with {len(counts)} patches: samples differ from the leave-one-out sums (first bad sample: {bad})",
                 probes,
             )
     # (d) covariance
